@@ -400,3 +400,94 @@ func HarnessC01UniqueComposite() {
 	}
 	checkC01(&s, arr)
 }
+
+// F8 (thorough): nestings of depth 2-3 across keyword groups.
+func HarnessC01Nested() {
+	s := spec.Schema{}
+	var d interface{}
+	leafVal := func() interface{} { return genLeafValue() }
+	switch verifChoose(4) {
+	case 0: // object -> array -> object
+		inner := spec.Schema{}
+		inner.Properties = map[string]spec.Schema{"b": genLeafSmall()}
+		if verifBool() {
+			inner.Required = []string{"b"}
+		}
+		if verifBool() {
+			inner.AdditionalProperties = &spec.SchemaOrBool{Allows: false}
+		}
+		arr := schemaOfType("array")
+		arr.Items = &spec.SchemaOrArray{Schema: &inner}
+		arr.MaxItems = ptrI(verifPickInt(1, 2))
+		s.Properties = map[string]spec.Schema{"a": arr}
+		n := verifChoose(3)
+		els := make([]interface{}, 0, n)
+		for i := 0; i < n; i++ {
+			el := map[string]interface{}{}
+			if verifBool() {
+				el["b"] = leafVal()
+			}
+			if verifBool() {
+				el["z"] = 1.0
+			}
+			els = append(els, el)
+		}
+		d = map[string]interface{}{"a": els}
+	case 1: // array -> object(patternProperties) -> array
+		in2 := schemaOfType("array")
+		l := genLeafSmall()
+		in2.Items = &spec.SchemaOrArray{Schema: &l}
+		in2.UniqueItems = verifBool()
+		obj := spec.Schema{}
+		obj.PatternProperties = map[string]spec.Schema{"^a": in2}
+		s.Items = &spec.SchemaOrArray{Schema: &obj}
+		m := verifChoose(3)
+		vals := make([]interface{}, 0, m)
+		for i := 0; i < m; i++ {
+			vals = append(vals, leafVal())
+		}
+		el := map[string]interface{}{"ab": vals}
+		if verifBool() {
+			el["b"] = "not-an-array"
+		}
+		d = []interface{}{el}
+	case 2: // allOf[ object, anyOf[ required, typed property ] ]
+		o1 := spec.Schema{}
+		o1.Properties = map[string]spec.Schema{"a": genLeafSmall()}
+		alt1 := spec.Schema{}
+		alt1.Required = []string{"b"}
+		alt2 := spec.Schema{}
+		alt2.Properties = map[string]spec.Schema{"a": schemaOfType("string")}
+		alt2.Required = []string{"a"}
+		any := spec.Schema{}
+		any.AnyOf = []spec.Schema{alt1, alt2}
+		s.AllOf = []spec.Schema{o1, any}
+		obj := map[string]interface{}{}
+		if verifBool() {
+			obj["a"] = leafVal()
+		}
+		if verifBool() {
+			obj["b"] = 1.0
+		}
+		d = obj
+	default: // oneOf of two array schemas, not nested inside
+		a1 := schemaOfType("array")
+		n1 := schemaOfType("number")
+		n1.Maximum = ptrF(2)
+		a1.Items = &spec.SchemaOrArray{Schema: &n1}
+		a2 := schemaOfType("array")
+		st := schemaOfType("string")
+		a2.Items = &spec.SchemaOrArray{Schema: &st}
+		s.OneOf = []spec.Schema{a1, a2}
+		neg := schemaOfType("array")
+		neg.MinItems = ptrI(3)
+		s.Not = &neg
+		k := verifChoose(4)
+		vals := make([]interface{}, 0, k)
+		for i := 0; i < k; i++ {
+			vals = append(vals, leafVal())
+		}
+		d = vals
+	}
+	checkC01(&s, d)
+}
